@@ -4,6 +4,8 @@ import Cfdm.Driver.C20
 import Cfdm.Driver.C14
 import Cfdm.Driver.C15
 import Cfdm.Driver.C06
+import Cfdm.Driver.C05
+import Cfdm.Driver.C18
 open Cfdm.Driver
 
 def step (line : String) : String :=
@@ -19,6 +21,8 @@ def step (line : String) : String :=
       | ["C14", sub] => C14.run sub kv
       | ["C15", sub] => C15.run sub kv
       | ["C06", sub] => C06.run sub kv
+      | ["C05", sub] => C05.run sub kv
+      | ["C18", sub] => C18.run sub kv
       | _ => "bad-op"
 
 partial def loop (h : IO.FS.Stream) : IO Unit := do
